@@ -15,7 +15,7 @@ package feeder
 //@   let wH      := cpHash(text(glc_out))
 //@   let same    := gotCP && wS == cpSubmit.Size && str(wH) == str(cpSubmit.Hash)
 //@   let getOK   := glc_err == nil || errIs(glc_err, os.ErrNotExist)
-//@   requires opts.Witness != nil && opts.LogSigVerifier != nil
+//@   requires opts.Witness != nil && opts.LogSigVerifier != nil && opts.FetchProof != nil
 //@   modifies n_ro, ro_err, n_gl, gl_err, gl_val, gl_h, n_glc, glc_id, glc_out, glc_err
 //@   modifies n_wo, wo_err, wo_h, n_set, set_err, set_arg, set_h, n_close, close_h, n_commit, n_sign, sign_err, sign_out, sign_n, st_has, st_val, cnt
 //@   modifies n_upd, upd_id, upd_old, upd_cp, upd_proof, upd_out, upd_err, n_fp, fp_from_size, fp_from_hash, fp_to_size, fp_to_hash, fp_out, fp_err, *addr(returnCp)
@@ -42,7 +42,7 @@ package feeder
 
 //@ func submitToWitness
 //@   returns (out, err)
-//@   requires opts.Witness != nil && opts.LogSigVerifier != nil
+//@   requires opts.Witness != nil && opts.LogSigVerifier != nil && opts.FetchProof != nil
 //@   modifies n_ro, ro_err, n_gl, gl_err, gl_val, gl_h, n_glc, glc_id, glc_out, glc_err
 //@   modifies n_wo, wo_err, wo_h, n_set, set_err, set_arg, set_h, n_close, close_h, n_commit, n_sign, sign_err, sign_out, sign_n, st_has, st_val, cnt
 //@   modifies n_upd, upd_id, upd_old, upd_cp, upd_proof, upd_out, upd_err, n_fp, fp_from_size, fp_from_hash, fp_to_size, fp_to_hash, fp_out, fp_err
@@ -51,7 +51,7 @@ package feeder
 
 //@ func FeedOnce
 //@   returns (out, err)
-//@   requires opts.Witness != nil && opts.LogSigVerifier != nil && opts.FetchCheckpoint != nil
+//@   requires opts.Witness != nil && opts.LogSigVerifier != nil && opts.FetchCheckpoint != nil && opts.FetchProof != nil
 //@   ghostmodifies n_fo, fo_id, fo_origin, fo_v, fo_w
 //@   ensures[ghost] n_fo == old(n_fo) + 1 && fo_id == opts.LogID && fo_origin == opts.LogOrigin && fo_v == opts.LogSigVerifier && fo_w == opts.Witness
 //@   modifies n_ro, ro_err, n_gl, gl_err, gl_val, gl_h, n_glc, glc_id, glc_out, glc_err, n_fc, fc_out, fc_err
@@ -68,7 +68,7 @@ package feeder
 //@ func Run
 //@   assumed
 //@   returns (err)
-//@   requires opts.Witness != nil && opts.LogSigVerifier != nil && opts.FetchCheckpoint != nil
+//@   requires opts.Witness != nil && opts.LogSigVerifier != nil && opts.FetchCheckpoint != nil && opts.FetchProof != nil
 //@   modifies heap
 //@   ghostmodifies n_fo, fo_id, fo_origin, fo_v, fo_w
 //@   ensures[ghost] n_fo == old(n_fo) + 1 && fo_id == opts.LogID && fo_origin == opts.LogOrigin && fo_v == opts.LogSigVerifier && fo_w == opts.Witness
